@@ -138,12 +138,17 @@ def proof_obligations(pid, cfg, tier):
 
 # ------------------------------------------------------------------ steps 2, 3: runs
 
+def cargo_build(which):
+    """the target directory is given explicitly so that a copy of /verif builds into its own cache"""
+    env = dict(ENV, CARGO_TARGET_DIR=os.path.join(CACHE, "target-ffi" if which == "ffi" else "target"))
+    p = subprocess.run(["cargo", "build", "--offline"], cwd=FFI_HARNESS if which == "ffi" else HARNESS,
+                       stdout=subprocess.PIPE, stderr=subprocess.STDOUT, text=True, env=env)
+    return p.returncode, p.stdout
+
+
 def build_harness(which):
     with Lock("build.lock"):
-        if which == "ffi":
-            rc, out = run(["cargo", "build", "--offline"], cwd=FFI_HARNESS)
-        else:
-            rc, out = run(["cargo", "build", "--offline"], cwd=HARNESS)
+        rc, out = cargo_build(which)
     if rc != 0:
         errs = [l for l in out.splitlines() if l.startswith("error")]
         return "harness build failed: " + (errs[0] if errs else out.strip()[-300:])
@@ -444,12 +449,12 @@ def setup():
     print(out.strip()[-500:])
     if rc != 0:
         return 1
-    rc, out = run(["cargo", "build", "--offline"], cwd=HARNESS)
+    rc, out = cargo_build("core")
     print(out.strip()[-500:])
     if rc != 0:
         return 1
     if os.path.isdir(FFI_HARNESS):
-        rc, out = run(["cargo", "build", "--offline"], cwd=FFI_HARNESS)
+        rc, out = cargo_build("ffi")
         print(out.strip()[-500:])
         if rc != 0:
             return 1
